@@ -207,7 +207,7 @@ def run(ctx):
         rets = [e for _, e in R.return_expr()]
         ok = False
         why = ''
-        if len(rets) == 1 and is_call(rets[0], 'AffTree::index_from_label') and is_call(rets[0][2][0], 'ArrayBase::map'):
+        if len(rets) == 1 and is_call(rets[0], 'AffTree::index_from_label') and is_call(rets[0][2][0], 'ArrayBase::map', 'ArrayBase::mapv', 'ArrayBase::mapv_into'):
             m = rets[0][2][0]
             arg, clo = m[2]
             residual = is_call(arg, 'Sub::sub') and is_call(arg[2][0], 'ArrayBase::dot') and \
